@@ -91,6 +91,11 @@ func (ioc *IO) Register(slot *internal.Slot) {
 }
 
 func (ioc *IO) Deregister(slot *internal.Slot) {
+	if slot.Events != 0 {
+		// An operation in the other direction is still in flight and relies on the slot being kept alive.
+		return
+	}
+
 	if slot.Fd >= len(ioc.pending.static) {
 		delete(ioc.pending.dynamic, slot.Fd)
 	} else {
